@@ -148,11 +148,14 @@ bool DecodeInteger(const ::std::string &text, IntType *result) {
   }
   // "", "0x", "0b", "-", "-0x", and "-0b" are not valid numbers.
   if (offset == text.size()) return false;
+  // Neither are "0x_", "-_" and the like, which have separators but no digit.
+  bool seen_digit = false;
   for (; offset < text.size(); ++offset) {
     char c = text[offset];
     IntType digit = 0;
     if (c == '_') {
-      if (offset == 0) {
+      // A number does not start with a separator, with or without a sign.
+      if (offset == (negative ? 1u : 0u)) {
         return false;
       }
       continue;
@@ -181,7 +184,9 @@ bool DecodeInteger(const ::std::string &text, IntType *result) {
       }
       accumulator = accumulator * base + digit;
     }
+    seen_digit = true;
   }
+  if (!seen_digit) return false;
   *result = accumulator;
   return true;
 }
